@@ -10,14 +10,14 @@ structure Property where
   inputName : String
   output : Number
   outputName : String
-deriving Repr, Inhabited
+deriving Repr, Inhabited, DecidableEq
 
 structure Substance where
   amount : Number
   name : String
   /-- `BTreeMap<String, Property>` in key order -/
   props : List (String × Property)
-deriving Repr, Inhabited
+deriving Repr, Inhabited, DecidableEq
 
 namespace Substance
 
